@@ -283,6 +283,38 @@ fn c03_line_iterator_step() {
     kani::cover!(index <= max_depth && stored.is_some(), "yielding step reachable");
 }
 
+/// TranspositionTableAccess::iter_moves starts the walk AT the position handed in, with index 0 and the given depth limit:
+/// its first step looks up that position's hash and yields (stored move, successor of that position) -- or nothing when
+/// the table holds nothing for it.
+#[kani::proof]
+#[kani::unwind(18)]
+#[kani::stub(weechess_core::ZobristHasher::hash, stub_hash)]
+#[kani::stub(TranspositionTableAccess::find, stub_tt_find)]
+fn c03_line_starts_at_the_root() {
+    reset();
+    let state = two_kings_state();
+    let hasher = weechess_core::verif_c08::sym_hasher();
+    let tt = TranspositionTableAccess { tables: Vec::new() };
+    let max_depth: usize = kani::any();
+    let r = tt.iter_moves(&hasher, &state, max_depth).next();
+    let stored = stored_entry();
+    unsafe {
+        assert!(FLAGS[1], "index 0 never exceeds the depth limit: the table is asked");
+    }
+    match stored {
+        None => assert!(r.is_none()),
+        Some(e) => match State::by_performing_move(&state, &e.performed_move) {
+            Ok(next) => {
+                assert!(r.is_some());
+                let MoveResult(m, s) = r.unwrap();
+                assert!(m == e.performed_move && same_position(&s, &next));
+            }
+            Err(_) => assert!(r.is_none()),
+        },
+    }
+    kani::cover!(r.is_some(), "a first move is reported");
+}
+
 fn same_position(a: &State, b: &State) -> bool {
     let mut same = a.turn_to_move() == b.turn_to_move()
         && a.en_passant_target() == b.en_passant_target()
